@@ -288,6 +288,10 @@ func (s *Scen) compareAtPromotion(x *RepProc, snaps map[string][]uint32) {
 	if src == nil {
 		return
 	}
+	s.compareCountersLocked("at promotion")
+	if s.Dead {
+		return
+	}
 	xi, err1 := GetRep(x.IP)
 	si, err2 := GetRep(src.IP)
 	if err1 != nil || err2 != nil {
@@ -432,7 +436,44 @@ func RunRebuild(s *Scen, r *vk.Rand, a, b int, bin, base string, cycles int) {
 		cl.AlignedOnly = alignedRebuild
 		ws := startWriters(cl, r, nw, pause)
 		time.Sleep(time.Duration(r.Range(20, 300)) * time.Millisecond)
-		how := []string{"kill", "kill", "stop"}[r.Intn(3)]
+		how := []string{"kill", "kill", "stop", "shortstop"}[r.Intn(4)]
+		if s.Prop == "C10" && cyc == 0 {
+			how = "shortstop"
+		}
+		if how == "shortstop" {
+			// the replica stalls for 1.5x the rpc deadline and then carries on: the controller must have given up on it
+			// (and detached it) rather than have sent the timed-out request again
+			errsBefore := len(cl.IOErrs)
+			cl.event("cycle %d: replica %d stalls for 6 s (rpc deadline 4 s), %d writers", cyc, x.Idx, nw)
+			syscall.Kill(x.cmd.Process.Pid, syscall.SIGSTOP)
+			time.Sleep(6 * time.Second)
+			syscall.Kill(x.cmd.Process.Pid, syscall.SIGCONT)
+			time.Sleep(2500 * time.Millisecond)
+			ws.Stop()
+			s.Res.Count("replica_failures_injected_shortstop", 1)
+			if rf == 3 && len(cl.IOErrs) > errsBefore {
+				s.Fail([]string{"C05"}, "minority-failure-surfaced:shortstop", fmt.Sprintf("with 3 replicas, a 6 s stall of replica %d made a write fail: %s", x.Idx, cl.IOErrs[errsBefore]))
+				return
+			}
+			s.compareCounters("after a 6 s stall of one replica")
+			if s.Dead {
+				return
+			}
+			if !cl.WaitRW(rf, 240*time.Second) {
+				s.inconclusive("cycle %d: not all replicas RW 240 s after a stall: %v", cyc, cl.Modes())
+				return
+			}
+			cl.gate.Lock()
+			msg, _ := cl.ReadAllPositions(256 * 1024)
+			cl.gate.Unlock()
+			if msg != "" {
+				s.Fail([]string{"C07", "C05", "C04"}, "data-differs-after-stall", msg)
+				return
+			}
+			s.compareCounters("after the stalled replica was rebuilt")
+			cl.AlignedOnly = false
+			continue
+		}
 		errsBefore := len(cl.IOErrs)
 		cl.event("cycle %d: victim replica %d, %s, %d writers", cyc, x.Idx, how, nw)
 		if how == "stop" {
@@ -485,7 +526,7 @@ func RunRebuild(s *Scen, r *vk.Rand, a, b int, bin, base string, cycles int) {
 			s.inconclusive("restart: %v", err)
 			return
 		}
-		interrupt := r.Intn(5)
+		interrupt := r.Intn(6)
 		srcKilled := false
 		if interrupt > 0 && interrupt < 4 {
 			marker := []string{"", "Addreplica", "syncFiles", "reloadAndVerify"}[interrupt]
@@ -518,6 +559,29 @@ func RunRebuild(s *Scen, r *vk.Rand, a, b int, bin, base string, cycles int) {
 					time.Sleep(200 * time.Millisecond)
 					cl.StartRep(p)
 					break
+				}
+			}
+		}
+		if interrupt == 5 && rf == 3 {
+			// the sending side of the file transfer dies: the sync agent of the source
+			deadline := time.Now().Add(40 * time.Second)
+			for time.Now().Before(deadline) && !x.LogHas("Synchronizing", logFrom) {
+				time.Sleep(2 * time.Millisecond)
+			}
+			if x.LogHas("Synchronizing", logFrom) {
+				for _, p := range cl.Reps {
+					if p != x && p.agent != nil && p.agent.Process != nil {
+						syscall.Kill(-p.agent.Process.Pid, syscall.SIGKILL)
+					}
+				}
+				s.Res.Count("rebuilds_with_sender_agent_killed", 1)
+				cl.event("killed the sync agents of the other replicas while replica %d receives files", x.Idx)
+				time.Sleep(300 * time.Millisecond)
+				for _, p := range cl.Reps {
+					if p != x {
+						p.agent = nil
+						cl.startAgent(p)
+					}
 				}
 			}
 		}
@@ -715,4 +779,33 @@ func (cl *Cluster) rmwPattern(x *RepProc, msg string) bool {
 		}
 	}
 	return stale && newer
+}
+
+// compareCounters: all RW replicas of a volume report the same revision count (C10), checked with writers paused.
+func (s *Scen) compareCounters(when string) {
+	s.Cl.gate.Lock()
+	defer s.Cl.gate.Unlock()
+	s.compareCountersLocked(when)
+}
+
+func (s *Scen) compareCountersLocked(when string) {
+	cl := s.Cl
+	modes := cl.Modes()
+	ref, refIdx := "", -1
+	for _, p := range cl.Reps {
+		if modes[p.Addr] != types.RW {
+			continue
+		}
+		ri, err := GetRep(p.IP)
+		if err != nil {
+			return
+		}
+		s.Res.Count("rw_counter_comparisons", 1)
+		if ref == "" {
+			ref, refIdx = ri.RevisionCounter, p.Idx
+		} else if ri.RevisionCounter != ref {
+			s.Fail([]string{"C10", "C07"}, "rw-replicas-report-different-revision-counts", fmt.Sprintf("%s: RW replica %d reports revision %s, RW replica %d reports %s", when, refIdx, ref, p.Idx, ri.RevisionCounter))
+			return
+		}
+	}
 }
